@@ -407,6 +407,55 @@ def _set_kind(e, env):
     return None
 
 
+_ATTR_ELEM = {}
+
+
+def attr_elem_kinds(trees):
+    """attribute / property name -> hash-order kind of a set built from its elements, from the annotations in the package
+    (List[str] -> 'unstable', List[int] -> 'stable'); only names whose every definition agrees are kept"""
+    seen = {}
+    for t in trees.values():
+        for n in ast.walk(t):
+            name, ann = None, None
+            if isinstance(n, ast.FunctionDef) and n.returns is not None and any(isinstance(d, ast.Name) and d.id == "property" for d in n.decorator_list):
+                name, ann = n.name, n.returns
+            elif isinstance(n, ast.AnnAssign) and isinstance(n.target, ast.Attribute) and isinstance(n.target.value, ast.Name) and n.target.value.id == "self":
+                name, ann = n.target.attr.lstrip("_"), n.annotation
+            if name is None:
+                continue
+            a = ast.unparse(ann).replace('"', "").replace("'", "")
+            kind = None
+            if a.startswith(("List[", "Sequence[", "Tuple[", "Set[")):
+                inner = a[a.index("[") + 1:-1]
+                kind = "stable" if inner in ("int", "bool") else "unstable"
+            seen.setdefault(name, set()).add(kind)
+    return {k: next(iter(v)) for k, v in seen.items() if len(v) == 1 and None not in v}
+
+
+ORDER_EFFECTS = {"append", "add_next", "add_prev", "insert", "extend", "write", "add_instruction"}
+
+
+def order_loops(tree, attr_kinds):
+    """for-loops over a hash-ordered set whose body has an order-sensitive effect (appends, edge insertions, output)"""
+    out = []
+    for fn in [f for f in ast.walk(tree) if isinstance(f, ast.FunctionDef)]:
+        for loop in [n for n in ast.walk(fn) if isinstance(n, ast.For)]:
+            it = loop.iter
+            kind = None
+            if isinstance(it, ast.Call) and isinstance(it.func, ast.Name) and it.func.id in ("set", "frozenset") and it.args:
+                inner = it.args[0]
+                if isinstance(inner, ast.Attribute):
+                    kind = attr_kinds.get(inner.attr)
+            elif isinstance(it, (ast.Set, ast.SetComp)):
+                kind = "unstable" if isinstance(it, ast.Set) and all(isinstance(x, ast.Constant) and isinstance(x.value, str) for x in it.elts) else None
+            if kind != "unstable":
+                continue
+            effects = [c for st in loop.body for c in ast.walk(st) if isinstance(c, ast.Call) and isinstance(c.func, ast.Attribute) and c.func.attr in ORDER_EFFECTS]
+            if effects:
+                out.append((fn, loop, effects[0]))
+    return out
+
+
 def order_sites(tree):
     """(function, node, kind, sink) where a hash-ordered set is turned into a sequence"""
     out = []
@@ -475,7 +524,18 @@ def rule_hash_order(ctx, rep):
                               "the order of the stored list changes with the interpreter's hash seed")
             else:
                 rep.ok(rule, {"site": f"{modname}:{fn.name}", "expr": ast.unparse(node)[:60], "elements": kind, "observable": observable, "sorted": wrapped_sorted})
+    ak = attr_elem_kinds(ctx.trees)
+    fx2 = ast.parse("def g(ins, labels):\n    for l in set(ins.labels):\n        ins.add_next(labels[l])\n    for l in ins.labels:\n        ins.add_next(labels[l])\n")
+    rep.require(len(order_loops(fx2, {"labels": "unstable"})) == 1, "E-ORDER(loop) does not recognise its positive fixture")
+    loops = 0
+    for modname, tree in ctx.trees.items():
+        for fn, loop, eff in order_loops(tree, ak):
+            loops += 1
+            rep.violation(rule, f"{modname}:{fn.name}: for ... in {ast.unparse(loop.iter)[:50]}", f"{ctx.path(modname)}:{loop.lineno}", ast.unparse(eff)[:80],
+                          "iterate in a deterministic order (the list itself, or sorted(...))",
+                          "the order of edges / list elements built in this loop changes with the interpreter's hash seed")
     rep.count("set-to-sequence conversions inspected", n)
+    rep.count("attribute element types known", len(ak))
 
 
 def rule_context_writers(ctx, rep):
